@@ -88,7 +88,7 @@ def main():
                     "text": p["text"],
                     "design_ref": "DESIGN.md section " + p["ref"],
                 },
-                "level_note": p["note"],
+                "level_note": p["note"] + ("" if pid in ("C16", "C17") else "; complete products at N <= 64 / <= 6 primes, production sizes (N up to 8192+, up to 18-64 primes, long inputs / containers / many parties) by structured exhaustive families (every unit vector, length, step, count, level), see DESIGN 5a"),
                 "technique": p["technique"],
             })
         else:
